@@ -85,6 +85,14 @@ type Batch struct {
 	GenPad     int `json:"gen_pad,omitempty"`
 	GenLongAt  int `json:"gen_long_at,omitempty"`
 	GenLongLen int `json:"gen_long_len,omitempty"`
+
+	// Histories (state carried across requests): Then is a second, different body.  History "handover": A is
+	// parsed, Then is parsed, and only then A's responses (kept exactly as handed over, no copy) are consumed;
+	// "retry": A is parsed and consumed once (the INSERT "fails"), Then is parsed and consumed, then A's very same
+	// response objects are consumed again (what doPush does when it retries).  A's and Then's rows must each be
+	// what they would be alone.
+	Then    *Batch `json:"then,omitempty"`
+	History string `json:"history,omitempty"`
 }
 
 // genSpans: n well-formed spans with pairwise different ids, 500 per trace (the read path LIMITs a trace to 2000).
@@ -256,6 +264,9 @@ func (b *Batch) shapeKey() string {
 	}
 	sb.WriteString(strings.Join(b.KeyOrder, ">"))
 	fmt.Fprintf(&sb, "/d=%s/g=%d.%d.%d.%d", b.Delivery, b.GenN, b.GenPad, b.GenLongAt, b.GenLongLen)
+	if b.Then != nil {
+		sb.WriteString("/h=" + b.History + "{" + b.Then.shapeKey() + "}")
+	}
 	if b.GenN > 0 {
 		return sb.String()
 	}
